@@ -116,7 +116,43 @@ def run(ck):
     ck.ob('C39.sched', 'C39.sched/registration-restarts-schedule', okr, rg.loc(lr[0][0]) if lr else rg.loc(),
           'register_session_with_material sets last_rotation exactly once, to the reference time of this handshake (found %s)' % [c for _i, c in lr])
 
+    # no other KeyManager function advances a session's key: every write of counter / current_key outside the registration is the
+    # gated one above (a bulk "rotate everything that exists" helper would rotate seconds-old sessions on one end only)
+    other_rot = []
+    for g_ in P.fns:
+        if not g_.file.endswith('KeyManager.cpp') or g_.q in (KM + 'rotate_if_needed', KM + 'register_session_with_material', KM + 'register_session'):
+            continue
+        for i_, m_, w_ in field_accesses(g_):
+            if w_ and (m_.endswith('SessionKeyContext::current_key') or m_.endswith('SessionKeyContext::counter')):
+                other_rot.append((g_, i_, m_))
+    ck.ob('C39.sched', 'C39.sched/single-rotation-site', not other_rot, other_rot[0][0].loc(other_rot[0][1]) if other_rot else rn.loc(),
+          'session keys advance only in rotate_if_needed, behind its per-session due test%s'
+          % ((' — %s writes %s' % (other_rot[0][0].name, other_rot[0][2].split('::')[-1])) if other_rot else ''))
+
     PN = ck.prog(['src/core/Node.cpp'])
+    # a handshake is answered from the record (without re-deriving the key) only inside the cooldown: a re-handshake over a session
+    # that is still open must reset the key both ends share
+    ph_ = PN.fn(N + 'perform_handshake')
+    ck.touch(ph_)
+    from sa.paths import Cfg as _Cfg
+    cfg_ph = _Cfg.of(ph_)
+    regs_ = [i for i in ph_.walk() if ph_.nodes[i].get('callee') == KM + 'register_session_with_material']
+    shortcuts = []
+    for r_ in [i for i in ph_.walk() if ph_.nodes[i]['k'] == 'ReturnStmt' and ph_.kids(i) and ph_.nodes[ph_.strip(ph_.kids(i)[0])].get('cv') == '1']:
+        if not any(cfg_ph.dominates(cfg_ph.locate(x), cfg_ph.locate(r_)) for x in regs_):
+            shortcuts.append(r_)
+
+    def in_cooldown(fact):
+        h = holds(ph_, fact)
+        if not h:
+            return False
+        a_, rel, b_ = h
+        fld = lambda n_: any(ph_.nodes[j].get('n') == 'handshake_cooldown' and ph_.nodes[j]['k'] == 'MemberExpr' for j in ph_.walk(n_))
+        return rel == '<' and fld(b_) or rel == '>' and fld(a_)
+    fails_, _n = gate_check(ph_, [('return true without key registration', r_) for r_ in shortcuts], [('elapsed < handshake_cooldown', in_cooldown)])
+    ck.ob('C39.sched', 'C39.sched/shortcut-only-in-cooldown', not fails_, ph_.loc(fails_[0][2]) if fails_ else ph_.loc(),
+          'perform_handshake returns true without registering a fresh key only while the previous identical handshake is younger than the cooldown '
+          '(%d such return(s))' % len(shortcuts), fails_[0][3] if fails_ else None)
     sites = 0
     for q in (N + 'rotate_session_keys', N + 'rotate_session_key'):
         f = PN.fn(q)
